@@ -3,6 +3,8 @@ package checks
 import (
 	"bytes"
 	"fmt"
+	"os"
+	"path/filepath"
 	"sync"
 
 	"github.com/tormoder/fit"
@@ -464,6 +466,49 @@ func c04Accepted(c *lib.Ctx, idx uint64) {
 		return
 	}
 	c.Count("accepted_streams_passing_integrity", 1)
+	if idx%3 == 1 {
+		// the verdicts must not depend on what kind of reader delivers the bytes: a pipe (an
+		// *os.File whose Stat reports size 0 and that cannot seek) and a regular file on disk
+		for k := 0; k < 2; k++ {
+			var rd *os.File
+			var cleanup func()
+			if k == 0 {
+				pr, pw, err := os.Pipe()
+				if err != nil {
+					continue
+				}
+				go func() { pw.Write(b); pw.Close() }()
+				rd, cleanup = pr, func() { pr.Close() }
+			} else {
+				dir := filepath.Join(lib.OutDir(), "work", "C04-files")
+				os.MkdirAll(dir, 0o755)
+				p := filepath.Join(dir, fmt.Sprintf("acc-%d.fit", os.Getpid()))
+				if os.WriteFile(p, b, 0o644) != nil {
+					continue
+				}
+				fh, err := os.Open(p)
+				if err != nil {
+					continue
+				}
+				rd, cleanup = fh, func() { fh.Close(); os.Remove(p) }
+			}
+			var e error
+			o := lib.Guard(func() {
+				if idx%2 == 0 {
+					e = fit.CheckIntegrity(rd, false)
+				} else {
+					_, e = fit.Decode(rd)
+				}
+			})
+			cleanup()
+			c.Eval()
+			if o.Panicked || e != nil {
+				c.Violation(b, "a stream that Decode and CheckIntegrity accept from memory is rejected when read through %s: %v %s", []string{"a pipe (*os.File)", "a file on disk (*os.File)"}[k], e, o.Panic)
+				return
+			}
+			c.Count("accepted_streams_also_through_os_file", 1)
+		}
+	}
 	c.Nontrivial(b)
 }
 
